@@ -27,7 +27,7 @@ ArgObjs == Objects \cup ExtraObjs
 
 \* declared parameter types
 ParamTypes ==
-    {Typed("int"), Typed("str"), Typed("bool"), Typed("float"), Typed("object"), Typed("A"), Typed("Color"),
+    {Typed("int"), Typed("str"), Typed("float"), Typed("object"), Typed("A"), Typed("Color"),
      Union(<<Typed("int"), Known(NONE)>>), Union(<<Typed("int"), Typed("str")>>), Union(<<Typed("str"), Known(NONE)>>),
      Union(<<Known(I1), Known(Obj("int", "2"))>>), Union(<<Typed("int"), Generic("list", <<Typed("int")>>)>>),
      Generic("list", <<Typed("int")>>), Generic("list", <<Typed("str")>>), Generic("tuple", <<Typed("int")>>),
@@ -108,6 +108,47 @@ Inhabited == done = "done" => (ArgsFor(tx) # << >> /\ ArgsFor(ty) # << >>)
 (***************************************************************************)
 (* Acceptance of a recorded execution                                      *)
 (***************************************************************************)
+\* ---- known deviations of the implementation that surface in executions (see known_findings.jsonl, C01) ----
+RECURSIVE UsesTest(_, _), UsesExpr(_, _), HasGrowthLoop(_, _)
+SubBlocks(st) == IF st.k \in {"if", "while", "for", "try", "match"} THEN st.parts ELSE << >>
+UsesTest(block, S) ==
+    \E i \in 1..Len(block) :
+        \/ block[i].k \in {"if", "while"} /\ block[i].hdr \in S
+        \/ \E j \in 1..Len(SubBlocks(block[i])) : UsesTest(SubBlocks(block[i])[j], S)
+UsesExpr(block, S) ==
+    \E i \in 1..Len(block) :
+        \/ block[i].k \in {"assign", "expr", "return"} /\ block[i].e \in S
+        \/ \E j \in 1..Len(SubBlocks(block[i])) : UsesExpr(SubBlocks(block[i])[j], S)
+GrowthExprs == {"(x, y)", "[x]", "{'k': x}", "pair(x, y)", "maybe(x)", "tolist(x)", "(*x, y)", "(x, *y)", "x + y", "x + 1",
+                "str(x)", "x[0:1]", "(x or y)", "(x and y)", "(x if y else v)"}
+HasGrowthLoop(block, inloop) ==
+    \E i \in 1..Len(block) :
+        \/ inloop /\ block[i].k = "assign" /\ block[i].t = "x" /\ block[i].e \in GrowthExprs
+        \/ \E j \in 1..Len(SubBlocks(block[i])) :
+              HasGrowthLoop(SubBlocks(block[i])[j], inloop \/ block[i].k \in {"while", "for"})
+NumericIsinstance == {"isinstance(x, int)", "isinstance(x, float)", "isinstance(x, (int, str))", "isinstance(x, bool)",
+                      "isinstance(x, int) or x is None", "isinstance(x, int) and x"}
+RECURSIVE HasManyT(_)
+HasManyT(T) ==
+    CASE T.k = "seq" -> \E i \in 1..Len(T.ms) : T.ms[i].many \/ HasManyT(T.ms[i].t)
+      [] T.k = "generic" -> \E i \in 1..Len(T.args) : HasManyT(T.args[i])
+      [] T.k = "union" -> \E i \in 1..Len(T.ms) : HasManyT(T.ms[i])
+      [] OTHER -> FALSE
+
+\* (a) isinstance against int/float/bool forgets the int -> float -> complex promotion (same defect as C02's
+\*     numeric-promotion-lost-by-isinstance): a branch is typed Never / too narrowly although promoted values reach it
+Dev_NumericIsinstance(c) == UsesTest(c.prog, NumericIsinstance)
+\* (b) a loop body is analysed twice, not to a fixpoint: a variable that grows in every iteration (x = [x]) is inferred
+\*     two levels deep only
+Dev_LoopGrowth(c) == HasGrowthLoop(c.prog, FALSE)
+\* (c) tuple.__add__ with an operand that has an unpacked segment returns the united element type of one side only
+Dev_TupleAddUnpacked(c) == UsesExpr(c.prog, {"x + y"}) /\ (HasManyT(c.tx) \/ HasManyT(c.ty))
+DevClass(c) ==
+    IF Dev_NumericIsinstance(c) THEN "numeric-promotion-lost-by-isinstance"
+    ELSE IF Dev_LoopGrowth(c) THEN "loop-carried-growth-not-at-fixpoint"
+    ELSE IF Dev_TupleAddUnpacked(c) THEN "tuple-add-with-unpacked-segment"
+    ELSE "none"
+
 \* e = [node, val, inferred]: node evaluated to runtime object val; pyanalyze inferred `inferred`
 Sound(e) == Member(e.val, e.inferred)
 =============================================================================
